@@ -411,7 +411,8 @@ def R4_vehicles(ctx):
         ctx.check(pa == [("arg", 1), soc, ("arg", 2), ("arg", 3), ("arg", 4)], "PHEV::consume_energy:energy(self, start_soc, speed, grade, distance)", "get_phev_energy does not receive (self, start soc, speed, grade, distance) unchanged", pe[0].where())
         ctx.check(try_propagation(b, pe[0], tm)["kind"] == "propagated" and try_propagation(b, gs[0], tm)["kind"] == "propagated", "PHEV::consume_energy:errors", "Err of the SOC read / energy computation is not propagated", pe[0].where())
         src = nosite(deep_strip(tm.call_term(pe[0].term, pe[0].bb)))
-        want = {"energy_electric": ("0", "1"), "energy_liquid": ("2", "3")}
+        roles = phev_energy_roles(F) or {"ee": ("0",), "eu": ("1",), "le": ("2",), "lu": ("3",)}
+        want = {"energy_electric": (roles["ee"], roles["eu"]), "energy_liquid": (roles["le"], roles["lu"])}
         seen = set()
         for c in b.calls():
             if c.callee != SM + "add_energy":
@@ -420,12 +421,12 @@ def R4_vehicles(ctx):
             for f, (vi, ui) in want.items():
                 if is_name(a[2], f):
                     seen.add(f)
-                    ctx.check(a[3] == ("field", src, vi) and a[4] == ("field", src, ui) and unmut(a[1]) == ("arg", 5), "PHEV::consume_energy:add(%s)" % f, "%s does not receive components (%s, %s) of get_phev_energy" % (f, vi, ui), c.where(), detail="add_energy(%s, r.%s, r.%s)" % (f, vi, ui))
+                    ctx.check(a[3] == _access(src, vi) and a[4] == _access(src, ui) and unmut(a[1]) == ("arg", 5), "PHEV::consume_energy:add(%s)" % f, "%s does not receive components (%s, %s) of get_phev_energy" % (f, ".".join(vi), ".".join(ui)), c.where(), detail="add_energy(%s, r.%s, r.%s)" % (f, ".".join(vi), ".".join(ui)))
                     ctx.check(try_propagation(b, c, tm)["kind"] == "propagated", "PHEV::consume_energy:add-error(%s)" % f, "Err of add_energy is not propagated", c.where())
         ctx.check(seen == set(want), "PHEV::consume_energy:both-features", "electric and liquid energy are not both recorded (%s)" % sorted(seen), b.where())
         ups = [c for c in b.calls() if c.callee == OPS + "update_soc_percent"]
         if ctx.check(len(ups) == 1, "PHEV::consume_energy:soc-update", "expected one SOC update", b.where()):
-            soc_update_ok(ctx, b, tm, ups[0], "PHEV::consume_energy", ("arg", 5), ("arg", 6), ("field", src, "0"), (("field", src, "1"),))
+            soc_update_ok(ctx, b, tm, ups[0], "PHEV::consume_energy", ("arg", 5), ("arg", 6), _access(src, roles["ee"]), (_access(src, roles["eu"]),))
     b = vehicle_method(F, ty, "best_case_energy_state")
     tm = Terms(b)
     src = ("call", "<%svehicle::default::%s as %s>::best_case_energy" % (P, ty, VT), (("arg", 1), ("arg", 2)))
@@ -478,6 +479,49 @@ def soc_update_ok(ctx, b, tm, c, inst, st, smd, energy, units):
     ctx.check(try_propagation(b, c, tm)["kind"] == "propagated", inst + ":soc-error", "Err of the SOC update is not propagated", c.where())
 
 
+def _leaves(t, prefix=()):
+    """the leaf values of a (nested) tuple / struct value with their access paths; a whole `predict(..)` result standing where a
+    pair is expected is read as its two components"""
+    t = clean(t)
+    if t[0] == "tuple":
+        for i, x in enumerate(t[1]):
+            yield from _leaves(x, prefix + (str(i),))
+    elif t[0] == "agg" and not t[1].startswith("std::"):
+        for name, x in t[3]:
+            yield from _leaves(x, prefix + (str(name),))
+    elif t[0] == "call" and t[1] == REC + "::predict":
+        yield prefix + ("0",), ("field", t, "0")
+        yield prefix + ("1",), ("field", t, "1")
+    else:
+        yield prefix, t
+
+
+def _access(src, path):
+    for name in path:
+        src = ("field", src, name)
+    return src
+
+
+def phev_energy_roles(F):
+    """where the result of get_phev_energy carries (electric energy, its unit, liquid energy, its unit): read from the arm that is
+    taken with charge left — the depleting model's prediction is the electric pair, Energy(0.0) with the sustaining model's unit
+    the liquid pair.  A 4-tuple gives ('0',), ('1',), ('2',), ('3',); a struct of two pairs gives ('electric','0'), ..."""
+    b = F.need(P + "vehicle::default::phev::get_phev_energy")
+    cd, cs = ("field", ("arg", 1), "charge_depleting_model"), ("field", ("arg", 1), "charge_sustain_model")
+    zero = ("call", U + "energy::Energy::new", (("const", "f64", "0.0"),))
+    eu = lambda r: ("call", U + "energy_rate_unit::EnergyRateUnit::associated_energy_unit", (("field", r, "energy_rate_unit"),))
+    pr = lambda r: ("call", REC + "::predict", (r, ("arg", 3), ("arg", 4), ("arg", 5)))
+    pos = ("Lt", ("const", "f64", "0.0"), ("arg", 2))
+    for r in table(b):
+        if r.end == "return" and r.facts == {pos} and ok_value(r) is not None:
+            lv = list(_leaves(ok_value(r)))
+            find = lambda *vals: [p_ for p_, v in lv if v in vals]
+            ee, eun, le, lu = find(("field", pr(cd), "0")), find(("field", pr(cd), "1"), eu(cd)), find(zero), find(eu(cs))
+            if len(lv) == 4 and all(len(x) == 1 for x in (ee, eun, le, lu)):
+                return {"ee": ee[0], "eu": eun[0], "le": le[0], "lu": lu[0]}
+    return None
+
+
 def R5_phev_switch(ctx):
     """C08.R5 PHEV power-source switch"""
     F = ctx.F
@@ -500,12 +544,20 @@ def R5_phev_switch(ctx):
         if ok_value(r) is not None:
             seen.add(side)
             pay = ok_value(r)
-            if side == "charged":
-                want = ("tuple", (("field", pr(cd), "0"), ("field", pr(cd), "1"), zero, eu(cs)))
-                alt = ("tuple", (("field", pr(cd), "0"), eu(cd), zero, eu(cs)))
+            roles = phev_energy_roles(F)
+            lv = dict(_leaves(pay))
+            if roles is None or len(lv) != 4:
+                want = alt = None
+                pay_n = pay
             else:
-                want = ("tuple", (zero, eu(cd), ("field", pr(cs), "0"), ("field", pr(cs), "1")))
-                alt = ("tuple", (zero, eu(cd), ("field", pr(cs), "0"), eu(cs)))
+                pay_n = ("tuple", tuple(lv.get(roles[k]) for k in ("ee", "eu", "le", "lu")))
+                if side == "charged":
+                    want = ("tuple", (("field", pr(cd), "0"), ("field", pr(cd), "1"), zero, eu(cs)))
+                    alt = ("tuple", (("field", pr(cd), "0"), eu(cd), zero, eu(cs)))
+                else:
+                    want = ("tuple", (zero, eu(cd), ("field", pr(cs), "0"), ("field", pr(cs), "1")))
+                    alt = ("tuple", (zero, eu(cd), ("field", pr(cs), "0"), eu(cs)))
+            pay = pay_n
             ctx.check(pay in (want, alt), "switch:%s" % side, "entered %s the energies are %s" % (side, short(pay)[:300]), b.where(), detail="electric only" if side == "charged" else "liquid only")
         else:
             ctx.check(is_err_value(r.ret) and contains(r.ret, lambda s: s == pr(cd if side == "charged" else cs)), "switch:%s:error" % side, "an Err on the %s side is not the propagated prediction error" % side, b.where())
